@@ -707,12 +707,41 @@ func c01One(c *fw.Ctx, cs c01Case) {
 
 	// recv reads one message; ok=false when the case must stop.
 	var rbuf []byte
+	var rnc net.Conn
 	recv := func(i int, expectNone bool) (g c01Got, ok bool) {
 		var rerr error
 		overrun := false
 		p := fw.Recover(func() {
 			if cs.Reader == "read" {
 				g.typ, g.p, rerr = rconn.Read(ctx)
+				return
+			}
+			if strings.HasPrefix(cs.Reader, "netconn:") {
+				// the peer endpoint receives through the net.Conn adapter: the payloads of the
+				// messages are its byte stream (all messages of such a case have one type)
+				if rnc == nil {
+					rnc = websocket.NetConn(ctx, rconn, c01Type(cs.Msgs[0].Type))
+				}
+				g.typ = c01Type(cs.Msgs[0].Type)
+				if expectNone {
+					var one [1]byte
+					_, rerr = rnc.Read(one[:])
+					return
+				}
+				n, _ := strconv.Atoi(strings.TrimPrefix(cs.Reader, "netconn:"))
+				g.p = make([]byte, len(wants[i]))
+				for off := 0; off < len(g.p) && rerr == nil; {
+					end := off + n
+					if end > len(g.p) {
+						end = len(g.p)
+					}
+					var m int
+					m, rerr = rnc.Read(g.p[off:end])
+					off += m
+					if rerr != nil {
+						g.p = g.p[:off]
+					}
+				}
 				return
 			}
 			var r io.Reader
@@ -1008,6 +1037,15 @@ loop:
 							c.NotExhaustive(c01PoisonNote)
 							break loop
 						}
+						if strings.HasPrefix(rd, "netconn:") {
+							oneType := true
+							for _, m := range sq {
+								oneType = oneType && m.Type == sq[0].Type
+							}
+							if !oneType || sch != "batch" && cf.Threshold > 1 {
+								continue
+							}
+						}
 						cs := c01Case{Cfg: cf, Dir: dir, Msgs: sq, Reader: rd, Sched: sch, Seed: c.Seed}
 						c01One(c, cs)
 						if !sampled && len(sq) == 3 && cf.Threshold == 1 && cf.ClientMode == "context-takeover" && cf.ServerMode == "context-takeover" && sq[0].Len != sq[1].Len && sq[1].Len != sq[2].Len && sq[2].Len >= 5000 {
@@ -1032,7 +1070,7 @@ func c01SeqRun(c *fw.Ctx, shard, nshards int) {
 	if c.Thorough() {
 		maxLen = 4
 	}
-	c01SeqRunWith(c, shard, nshards, "seq", c01SeqAlphabet, maxLen, []string{"read", "reader:4096"}, []string{"batch", "alternate"})
+	c01SeqRunWith(c, shard, nshards, "seq", c01SeqAlphabet, maxLen, []string{"read", "reader:4096", "netconn:4096", "netconn:100"}, []string{"batch", "alternate"})
 }
 
 func c01WindowRun(c *fw.Ctx, shard, nshards int) {
